@@ -26,7 +26,7 @@ ASSUMPTIONS = ['self-referencing containers are un-cycled by the scenario before
                'rounds 1-4 warm caches; a leak is live heap bytes (ASan allocator) strictly growing over rounds 5, 6, 7, 8; object/program counts must be equal after rounds 5 and 8']
 
 KINDS = ['arr', 'map', 'str', 'buf', 'cls', 'fp', 'fpb', 'fpl', 'fpa', 'nest', 'obj']
-USES = ['copy', 'add', 'sub', 'and', 'slice', 'sort', 'filter', 'map', 'keys', 'sprintf', 'save', 'implode', 'foreach', 'eval', 'catch', 'throw', 'member', 'unique', 'alloc', 'err', 'deep']
+USES = ['copy', 'add', 'sub', 'and', 'slice', 'sort', 'filter', 'map', 'keys', 'sprintf', 'save', 'implode', 'foreach', 'eval', 'catch', 'throw', 'member', 'unique', 'alloc', 'err', 'deep', 'savecut1', 'savecut2', 'savecut3', 'restdup']
 ROUNDS = 8
 
 
